@@ -762,6 +762,22 @@ fn c09(cx: &mut Ctx) {
         // sampled positions: corpus roots, playout positions with ep set, with castling rights, any
         let b = if i % 4 == 0 && !cx.corpus.boards.is_empty() {
             cx.corpus.boards[(i * 7) % cx.corpus.boards.len()]
+        } else if i % 4 == 3 {
+            // a synthesized special-move scenario after its forced chain (en-passant state with pinned / unpinned
+            // capturers, kings on the lines the capture opens, castling under fire, crowded boards): the single-
+            // component variants of exactly those positions
+            let mut pick: Option<Board> = None;
+            for _ in 0..80 {
+                if let Some((root, forced)) = special_scenario(&mut cx.rng) {
+                    let mut cur = root;
+                    let mut ok = true;
+                    for m in forced.iter() {
+                        match guard(|| cur.make_move_new(*m)) { Some(n) => cur = n, None => { ok = false; break; } }
+                    }
+                    if ok && (cur.en_passant().is_some() || cx.rng.chance(1, 4)) { pick = Some(cur); break; }
+                }
+            }
+            match pick { Some(b) => { cx.sink.count("var_roots_from_scenarios"); b } None => cx.root() }
         } else {
             let mut pick: Option<Board> = None;
             for _ in 0..60 {
